@@ -445,6 +445,12 @@ class NumpyBackend(BackendBase[NumericArray]):
                 arrays = ", ".join(f"asarray({self._print(expr)})" for expr in arr)
                 return f"array(broadcast_arrays({arrays}))"
 
+            def _print_Mod(self, expr):
+                # always use parentheses, since sympy omits them in negative products
+                # and for arguments that are printed as divisions
+                a, b = (self._print(arg) for arg in expr.args)
+                return f"(({a}) % ({b}))"
+
         printer = NumpyArrayPrinter(
             {
                 "fully_qualified_modules": False,
